@@ -76,6 +76,9 @@ structure QuicPacketObj where
   deriving DecidableEq, Repr
 """]),
     "Suites": dict(imports=["TLX.PyRt", "TLX.CipherSuiteTypes"], decls=[]),
+    "Reasm2": dict(imports=["TLX.PyRt", "TLX.Reassembly"],
+                   decls=["/-- a `TlsRecord` as constructed: `binary` (the whole record) and `metadata` (the packets that carry it) -/\n"
+                          "structure TlsRecordObj where\n  binary : Bytes\n  metadata : List TLX.Reassembly.Seg\n  deriving DecidableEq, Repr\n"]),
     "TlsSess2": dict(imports=["TLX.PyRt", "TLX.Session"], decls=[], options=["set_option linter.unusedVariables false"]),
     # the frame class constructors call the two varint functions: this group rests on Varint's definitions
     "Frames": dict(imports=["TLX.PyRt", "TLX.Quic.FrameTypes", "TLX.Gen.Translated.Varint"], decls=[]),
@@ -529,6 +532,20 @@ for _d, _flag in (("server", "True"), ("client", "False")):
               select={"start": f"for record in self.{_d}_tls_records"},
               places=SESS_PLACES + [(f"self.{_d}_tls_records", "records", f"List {REC}", "r")])
 
+# session.py extract_*_buf, the framing part (after the contiguity test): packet_ranges / packet_data, the scan for
+# `need_data`, the records with their carrier packets, the next expected sequence number. A packet object is the model's
+# `Seg` (`tls_data` = `Seg.data`); a `TlsRecord` is what its constructor gets (`binary`, `metadata`).
+for _d in ("server", "client"):
+    SPECS.append(dict(name=f"extract_{_d}_frame", group="Reasm2", file="tlexport/session.py", func=f"Session.extract_{_d}_buf",
+                      select={"start": "index = 0", "end": "if not need_data:"}, params=[("base", "Nat")],
+                      places=[(f"self.{_d}_packet_buffer", "packet_buffer", f"List {SEG}", "rw"),
+                              (f"self.{_d}_tls_records", "tls_records", "List TlsRecordObj", "rw"),
+                              (f"self.{_d}_next_seq", "next_seq", "Option Nat", "rw")],
+                      attr_funcs={(SEG, "tls_data"): ("TLX.Reassembly.Seg.data", "Bytes")},
+                      locals={"packet_ranges": f"List (Nat × Nat × {SEG})", "metadata": f"List {SEG}"},
+                      fuel={"while True": "total_packet_len + 1", "while index != total_packet_len": "total_packet_len"},
+                      ctors={"TlsRecord": dict(type="TlsRecordObj", positional=[("binary", "Bytes"), ("metadata", f"List {SEG}"), (None, None)])}))
+
 THEOREMS = _uniq(theorem_of(s) for s in SPECS)
 
 
@@ -553,7 +570,7 @@ CHECK_GROUPS = {
     "C02": ["QuicDissect", "QuicSess", "Pn", "Varint", "Frames", "QuicDissect2"],
     "C03": ["TlsSess", "QuicDissect", "Varint", "QuicDissect2", "TlsSess2"],
     "C04": ["Demux", "QuicSess", "QuicDissect"],
-    "C05": ["Reasm"],
+    "C05": ["Reasm", "Reasm2"],
     "C07": ["Ports"],
     "C10": ["Ports"],
     "C11": ["Checksum"],
@@ -1178,6 +1195,30 @@ def _cases(rng, n):
         k, v = call(TlsRecord.__init__, me, rawr, [], False)
         out.append(("TlsRecord_init", _b(rawr), (f".ok {{ binary_ := {_b(me.binary)}, record_type := {me.record_type}, record_version := {_b(me.record_version)}, "
                                                  f"record_length := {_b(me.record_length)}, raw := {_b(me.raw)} }}") if k == "ok" else f".error .{v}"))
+        # extract_*_buf, the framing part: a sorted contiguous buffer with the next expected sequence number known, so that the
+        # part of the function before the fragment changes nothing and `base` is that number
+        for side in ("server", "client"):
+            stream = b"".join(bytes([rng.choice([0x16, 0x17])]) + b"\x03\x03" + len(bd).to_bytes(2, "big") + bd
+                              for bd in (rb(0, 6) for _ in range(rng.randint(0, 3))))
+            if rng.random() < 0.4:
+                stream = stream[:rng.randint(0, len(stream))] if stream else stream
+            base = rng.choice([0, 5, 2 ** 32 - 3, 2 ** 32 - 1, 1000])
+            cuts = sorted(rng.randrange(1, len(stream)) for _ in range(rng.randint(0, 2))) if len(stream) > 1 else []
+            pieces = [stream[a:b] for a, b in zip([0] + cuts, cuts + [len(stream)])] or [b"\x16"]
+            pieces = [pc for pc in pieces if pc] or [b"\x16"]
+            pkts, off = [], 0
+            for j, pc in enumerate(pieces):
+                pkts.append(NS(ident=j + 1, seq=(base + off) % 2 ** 32, tls_data=pc))
+                off += len(pc)
+            me = NS(**{f"{side}_counter": 0, f"{side}_next_seq": base, f"{side}_packet_buffer": list(pkts), f"{side}_tls_records": []})
+            k, v = call(getattr(ses.Session, f"extract_{side}_buf"), me)
+            sg = lambda q: f"(⟨{q.ident}, {q.seq}, {_b(q.tls_data)}⟩ : TLX.Reassembly.Seg)"
+            segs = lambda qs: "[" + ", ".join(sg(q) for q in qs) + "]"
+            recs = "[" + ", ".join(f"{{ binary := {_b(t_.raw)}, metadata := {segs(t_.metadata)} }}" for t_ in getattr(me, f"{side}_tls_records")) + "]"
+            nxt = getattr(me, f"{side}_next_seq")
+            out.append((f"extract_{side}_frame", f"{base} {segs(pkts)} [] (some {base})",
+                        f".ok () {{ packet_buffer := {segs(getattr(me, side + '_packet_buffer'))}, tls_records := {recs}, next_seq := (some {nxt}) }}"
+                        if k == "ok" else f".raised .{v} {{ packet_buffer := [], tls_records := [], next_seq := none }}"))
         # output builders
         pm = rng.choice([{}, {443: 8443}, {443: 8443, 5000: 1}])
         sp, keep = rng.choice([443, 5000, 80]), rng.random() < 0.5
